@@ -385,5 +385,35 @@ PROPS["C20"] = {
 }
 
 
+PROPS["C14"] = {
+    "legs": [plain("exh", "pmdiff", "TestC14Exhaustive", solo=True),
+             rapid("rand", "pmdiff", "TestC14Rand", 4, 2500, 16, 25000),
+             rapid("git", "pmdiff", "TestC14Git", 2, 1500, 8, 15000),
+             plain("gnupatch", "pmdiff", "TestC14GnuPatch", shards={"quick": 1, "thorough": 4})],
+    "rule": "diffs are New(L,R) (n=-1) or New(L,R).AddContext(n).Unify() (n in 0..3). leg exh: every pair over {a,b,c} "
+            "with lengths <=4 (quick) / <=5 (thorough) x n in {-1,0,1,2,3}, alternately without and with a FileInfo; leg "
+            "rand: pairs derived from a common base by line mutations over 2-5 lines drawn from a hostile alphabet "
+            "('', '-x', '+y', ' z', '<', '> b', '---', '--- q', '+++ q', '@@ -1 +1 @@', 'diff x', '***', '1a2', '\\', "
+            "...), FileInfo absent or with random names (no tab/newline) and timestamps at microsecond precision with "
+            "minute-granular zone offsets, or zero; leg git: 1-4 such diffs wrapped in 'diff --git'/mode/index/---/+++ "
+            "sections, optionally with function context after the second @@. O1 (round trip): Normal->Read yields one "
+            "chunk per change command at the expected ranges, Unified->ReadUnified / ReadGitPatch yield the same ranges "
+            "and line operations chunk for chunk (Replace = its Drop and Copy halves), Patch.Format reproduces the text "
+            "byte for byte, names and times (Equal and same offset) survive; the empty rendering may read as zero chunks "
+            "or an error. O2 (meaning): three reference appliers written from the published rules of the normal, "
+            "unified (count omitted = 1, count 0 = after that line) and context formats (inclusive ranges, b=a-1 empty, "
+            "omitted body = other side's context), using only old-file line numbers and verifying removed/kept lines, "
+            "applied to Left must give Right. O3 (leg gnupatch): the same renderings applied by /usr/bin/patch "
+            "--fuzz=0 in batches of 200 files per invocation (-u, -c, -n with Index: lines); any offset/fuzz/reject or "
+            "differing file fails (case re-run alone to localise). Known finding F5 (ReadUnified/ReadGitPatch read a "
+            "one-line range 'N' as empty): exposure = some chunk side has exactly one line; unexposed cases are strict; an "
+            "exposed case must parse to exactly the original with those sides collapsed and re-render to the rendering of "
+            "that collapsed patch. NON-TRIVIAL iff the diff is non-empty and has an empty range, a one-line range or a "
+            "line that is empty or starts with one of - + < > @ space \\ * ! d or a digit (git leg: >=2 file sections). "
+            "Distinct: by construction (exh), hash of the case JSON (rand, git), distinct (L,R,n) (gnupatch).",
+    "assumptions": COMMON_ASSUME + ["lines contain no newline and no carriage return", "GNU patch 2.7.6 is the external differential oracle; when it is absent leg gnupatch is skipped and says so"],
+    "technique": "small-scope exhaustive enumeration + property-based testing (rapid): round-trip, reference appliers, GNU patch differential",
+}
+
 # Properties deliberately not claimed (reason shown in MANIFEST.not_applicable).
 NOT_APPLICABLE = {}
